@@ -88,9 +88,22 @@ func c09Run(is *isolator, c evalCase) (evalResult, string) {
 // padHugeWidth recognises the open finding F-E10: $pad with a width whose
 // conversion to int overflows panics in strings.Repeat / makeslice.
 func padHugeWidth(caseJSON []byte, msg string) bool {
-	return strings.Contains(msg, "jlib.Pad") &&
+	cs := string(caseJSON)
+	if strings.Contains(msg, "jlib.Pad") &&
 		(strings.Contains(msg, "makeslice") || strings.Contains(msg, "Repeat") || strings.Contains(msg, "out of range")) &&
-		strings.Contains(string(caseJSON), "pad")
+		strings.Contains(cs, "pad") {
+		return true
+	}
+	// the same unbounded width without a panic: a padding of 2^31 or more
+	// characters that does not finish (or exhausts memory) within the time limit
+	if strings.Contains(msg, "did not return") && strings.Contains(cs, "$pad(") {
+		for _, w := range []string{"2.147483648e+09", "4.294967296e+09", "9.223372036854776e+18", "1e+21", "1e+308"} {
+			if strings.Contains(cs, w) {
+				return true
+			}
+		}
+	}
+	return false
 }
 
 func c09Nontrivial(prog *ast.Node) bool {
